@@ -1,15 +1,25 @@
 import TextxVerif.Wire
 import TextxVerif.Link.PlainName
+import TextxVerif.Link.Store
+import TextxVerif.Link.Conf
 import TextxVerif.Link.Fqn
 /-! Driver for default (PlainName) and FQN reference resolution (C07, C10).
 
 Object: {"id":n,"cls":c,"name":s|null,"attrs":[{"c":[Object…]} | {"r":[id…]} | {"p":0}]}
 ops:
   {"op":"resolve_default","root":Object,"conf":[[objCls,targetCls]…],
-   "builtins":[[name,id,cls]…],"refs":[[name,targetCls,owner,attr]…],
-   "probes":[[name,targetCls]…]}
+   "builtins":[[name,id,cls]…],"refs":[[name,targetCls,owner,attr,single(0|1)]…],
+   "probes":[[name,targetCls]…],
+   "gram":[[hasAttrs(0|1),[altRule…]]…],"objmap":[[cls,rule]…],"tgtmap":[[cls,rule]…],"object":cls}
+     (the grammar as a C03 rule graph: body = ordered choice of the referenced rules; `objmap` / `tgtmap` send
+      the class numbers of objects / of reference targets used in tree and conf to rule numbers, a class that is
+      no rule of the grammar to a number ≥ |gram|; `object` is the target class standing for OBJECT)
      → {"res":{"ok":[T…]} | {"fail":"unknown"|"notUnique","idx":i},
         "attrs":[[owner,attr,[T…]]…]  (only when ok; one entry per distinct owner/attr, in first-use order),
+        "stored":[[owner,attr,[pyid…] | null]…]  (only when the pass *with its stores* `resolveAllSt (storeRef …)`
+                  succeeds: the reference attributes read from the final tree, same keys) | "st_fail":{…},
+        "conf_diff":[[cls,targetCls]…]  the pairs objmap × (tgtmap + object) on which the table `conf`
+                  and `Link.confOfGrammar gram` (the C03 `textx_isinstance` model) disagree,
         "probes":[id | "many" | null …]}          T = {"obj":id} | {"builtin":id}
   {"op":"resolve_fqn","root":Object,"conf":[[objCls,targetCls]…],"probes":[[cur,"a.b.c",targetCls]…]}
      → {"probes":[id | null | "no-such-object" …]}
@@ -50,14 +60,15 @@ def parseBuiltins (a : Array Json) : Option (List (String × Builtin)) :=
     let c ← asNat? (← xs[2]?)
     if xs.size = 3 then pure (n, { id := i, cls := c }) else none
 
-def parseRefs (a : Array Json) : Option (List Ref) :=
+def parseRefs (a : Array Json) : Option (List (Ref × Bool)) :=
   a.toList.mapM fun e => do
     let xs ← asArr? e
     let n ← asStr? (← xs[0]?)
     let t ← asNat? (← xs[1]?)
     let o ← asNat? (← xs[2]?)
     let ai ← asNat? (← xs[3]?)
-    if xs.size = 4 then pure { name := n, tcls := t, owner := o, attr := ai } else none
+    let sg ← asNat? (← xs[4]?)
+    if xs.size = 5 ∧ sg ≤ 1 then pure ({ name := n, tcls := t, owner := o, attr := ai }, sg == 1) else none
 
 def parseNameProbes (a : Array Json) : Option (List (String × Nat)) :=
   a.toList.mapM fun e => do
@@ -74,6 +85,28 @@ def parseFqnProbes (a : Array Json) : Option (List (Nat × String × Nat)) :=
     let t ← asNat? (← xs[2]?)
     if xs.size = 3 then pure (c, n, t) else none
 
+def parseGram (a : Array Json) : Option RuleTypes.Gram :=
+  a.toList.mapM fun e => do
+    let xs ← asArr? e
+    let h ← asNat? (← xs[0]?)
+    let alts ← asNatList? (← xs[1]?)
+    if xs.size = 2 ∧ h ≤ 1 then
+      pure { hasAttrs := h == 1,
+             body := if alts.isEmpty then .lit else .choice (alts.map RuleTypes.Body.ref) }
+    else none
+
+/-- table conformance against the C03 model, over all pairs of mapped classes (+ OBJECT as target) -/
+def confDiff (tbl : List (Nat × Nat)) (g : RuleTypes.Gram) (objmap tgtmap : List (Nat × Nat)) (objCls : Nat) :
+    List (Nat × Nat) :=
+  let k := RuleTypes.kindsOf g
+  let inst (c : Nat) (t : Option Nat) : Bool :=
+    match t with
+    | none => RuleTypes.isInstance g k c .object
+    | some r => RuleTypes.isInstance g k c (.rule r)
+  let targets : List (Nat × Option Nat) := (tgtmap.map fun (c, r) => (c, some r)) ++ [(objCls, none)]
+  (objmap.flatMap fun (c, r) => targets.filterMap fun (t, tr) =>
+    if tbl.contains (c, t) == inst r tr then none else some (c, t))
+
 def targetJson : Target → Json
   | .obj o => Json.mkObj [("obj", toJson o.id)]
   | .builtin b => Json.mkObj [("builtin", toJson b.id)]
@@ -85,9 +118,30 @@ def dedupKeys : List (Nat × Nat) → List (Nat × Nat) → List (Nat × Nat)
 def handleDefault (j : Json) : Json :=
   match (getObj? j "root").bind parseObj, (getArr? j "conf").bind parsePairs,
         (getArr? j "builtins").bind parseBuiltins, (getArr? j "refs").bind parseRefs,
-        (getArr? j "probes").bind parseNameProbes with
-  | some root, some tbl, some bs, some refs, some probes =>
+        (getArr? j "probes").bind parseNameProbes,
+        ((getArr? j "gram").bind parseGram, (getArr? j "objmap").bind parsePairs,
+         (getArr? j "tgtmap").bind parsePairs, getNat? j "object") with
+  | some root, some tbl, some bs, some refsS, some probes, (some gram, some objmap, some tgtmap, some objCls) =>
     let conf := confOf tbl
+    let diffOut : List (String × Json) :=
+      [("conf_diff", Json.arr ((confDiff tbl gram objmap tgtmap objCls).map fun (c, t) =>
+          Json.arr #[toJson c, toJson t]).toArray)]
+    let refs := refsS.map (·.1)
+    -- single-valuedness is a property of the attribute (owner, attr)
+    let singles : List (Nat × Nat) := (refsS.filter (·.2)).map fun p => (p.1.owner, p.1.attr)
+    let single : Ref → Bool := fun r => singles.contains (r.owner, r.attr)
+    let keys := dedupKeys (refs.map fun r => (r.owner, r.attr)) []
+    -- the pass as it runs: every resolved target is stored before the next lookup
+    let stOut : List (String × Json) :=
+      match resolveAllSt (storeRef single) conf root bs refs with
+      | .ok (_, root') =>
+        [("stored", Json.arr (keys.map fun (o, a) =>
+            Json.arr #[toJson o, toJson a,
+              match readObj o a root' with
+              | some ids => toJson ids
+              | none => Json.null]).toArray)]
+      | .error (.unknown i) => [("st_fail", Json.mkObj [("fail", "unknown"), ("idx", toJson i)])]
+      | .error (.notUnique i) => [("st_fail", Json.mkObj [("fail", "notUnique"), ("idx", toJson i)])]
     let probeOut : List Json := probes.map fun (n, t) =>
       match plainName conf root n t with
       | .one o => toJson o.id
@@ -95,16 +149,15 @@ def handleDefault (j : Json) : Json :=
       | .none => Json.null
     match resolveAll conf root bs refs with
     | .ok res =>
-      let keys := dedupKeys (refs.map fun r => (r.owner, r.attr)) []
       let attrs : List Json := keys.map fun (o, a) =>
         Json.arr #[toJson o, toJson a, Json.arr ((attrValue res o a).map targetJson).toArray]
-      Json.mkObj [("res", Json.mkObj [("ok", Json.arr (res.map (fun p => targetJson p.2)).toArray)]),
-                  ("attrs", Json.arr attrs.toArray), ("probes", Json.arr probeOut.toArray)]
+      Json.mkObj ([("res", Json.mkObj [("ok", Json.arr (res.map (fun p => targetJson p.2)).toArray)]),
+                  ("attrs", Json.arr attrs.toArray), ("probes", Json.arr probeOut.toArray)] ++ stOut ++ diffOut)
     | .error (.unknown i) =>
-      Json.mkObj [("res", Json.mkObj [("fail", "unknown"), ("idx", toJson i)]), ("probes", Json.arr probeOut.toArray)]
+      Json.mkObj ([("res", Json.mkObj [("fail", "unknown"), ("idx", toJson i)]), ("probes", Json.arr probeOut.toArray)] ++ stOut ++ diffOut)
     | .error (.notUnique i) =>
-      Json.mkObj [("res", Json.mkObj [("fail", "notUnique"), ("idx", toJson i)]), ("probes", Json.arr probeOut.toArray)]
-  | _, _, _, _, _ => badOp
+      Json.mkObj ([("res", Json.mkObj [("fail", "notUnique"), ("idx", toJson i)]), ("probes", Json.arr probeOut.toArray)] ++ stOut ++ diffOut)
+  | _, _, _, _, _, _ => badOp
 
 def handleFqn (j : Json) : Json :=
   match (getObj? j "root").bind parseObj, (getArr? j "conf").bind parsePairs,
@@ -115,8 +168,8 @@ def handleFqn (j : Json) : Json :=
       match pathTo cur root with
       | none => Json.str "no-such-object"
       | some _ =>
-        -- `fqn_name.split(".")`
-        match fqn (fun o => conf o.cls t) root cur (dotted.splitOn ".") with
+        -- `fqn_name.split(".")` = `Link.splitDots` (specified by C10_split_spec / C10_split_unique)
+        match fqnText (fun o => conf o.cls t) root cur dotted with
         | some o => toJson o.id
         | none => Json.null
     Json.mkObj [("probes", Json.arr outs.toArray)]
